@@ -31,7 +31,8 @@ META = dict(
     text="Generated histories of register / unregister / set_output / set_flow_def / provide / loop step / release over chains of pass-through pipes, a pipe with its own request, a bin, and a thread queue. After every operation "
          "(and at loop quiescence) the model predicts and the check compares: the requests lodged at each tail (exactly one per registered upstream request that reaches it, right type and dictionary, none stale), the provide_request "
          "events thrown per probe when nobody downstream handles a request, the callbacks on the original requests (exactly one per answer, carrying the provided object, none after unregister), the pipe's own request being answered; "
-         "end-of-case audit for leaks. Sampling.",
+         "provide_request events that no service probe answers reach the end of the probe chain; node kinds instantiating the uclock / flow_format / uref_mgr / ubuf_mgr helpers "
+         "(time_limit, video_blank, rtp_decaps, void_source, blit) and a harness-defined bin; end-of-case audit for leaks. Sampling.",
     design_ref="DESIGN.md section 6, C12",
     note="bins other than ts_align and the harness-written hbin (same control idiom: filters, dvbcsa, hls, rtp_demux, id3v2, worker) are not exercised; allocation failures are not generated; "
          "demand_uref_mgr runs only in hbin's instance (its repository users are file / network / demux sources); blit's own flow_format negotiation is not modelled (no flow_format request is generated upstream of a blit)",
